@@ -253,7 +253,24 @@ async def execute(net, hyg, plan):
                     before = len(s.outcomes)
                     reuse = False
                     probe = PROBE
+                listing_ok = True
                 for st2 in probe:
+                    if st2 == ["quit"] and s.alive:
+                        # ... and a listing of another directory holds exactly its entries (nothing of a listing that failed half-way
+                        # is left anywhere)
+                        n_before = len(s.outcomes)
+                        if await s.step(["epsv"]) and await s.step(["xfer", "MLSD", "/dir"]):
+                            tree_now = w.tree()
+                            want_names = sorted(k.rsplit("/", 1)[1] for k in tree_now if k.startswith("/dir/") and k.count("/") == 2)
+                            raw_ = s.downloads[-1][2] if s.downloads else b""
+                            got_names = sorted(ln.partition(b"; ")[2].decode("utf-8", "replace") for ln in raw_.split(b"\r\n") if ln)
+                            mon["probe_listing"] = mon.get("probe_listing", 0) + 1
+                            if got_names != want_names:
+                                listing_ok = False
+                                viol.append({"key": f"probe-listing-differs:{site}",
+                                             "msg": f"{where}: MLSD /dir afterwards lists {got_names[:8]} ({len(got_names)}), the directory holds "
+                                                    f"{want_names[:8]} ({len(want_names)})"})
+                        del s.outcomes[n_before:]
                     if not await s.step(st2):
                         break
                 got = s.outcomes[before:]
@@ -261,7 +278,8 @@ async def execute(net, hyg, plan):
                 if reuse:
                     want = [x for x in want if x != ["229"]]
                     mon["probe_reuses_listener"] = 1
-                content_ok = bool(s.downloads) and s.downloads[-1][2] == payload_bytes(1234)
+                probe_dl = [d_ for d_ in s.downloads if d_[0] == "RETR" and d_[1] == "/probe.bin"]
+                content_ok = bool(probe_dl) and probe_dl[-1][2] == payload_bytes(1234)
                 if got != want or not content_ok:
                     viol.append({"key": f"probe-failed:{site}", "msg": f"{where}: follow-up on the same session gave {got}"})
         else:
@@ -336,6 +354,47 @@ async def execute_burst(net, hyg, plan):
         w.cleanup()
 
 
+async def execute_repeat(net, hyg, plan):
+    """the same failure many times in one session (an upload onto a directory name: the open step fails after the 150), good
+    transfers in between and at the end: the 80th failure is contained like the first"""
+    w = W.World(net, tree=corpus_tree([""]), users=corpus_users, backend=plan.get("backend", "memory"))
+    await w.start()
+    viol = []
+    try:
+        s = Session(net, 2121, name="repeat")
+        await s.run([["connect"], ["login"], ["cmd", "TYPE I"], ["epsv"]])
+        n = plan["n"]
+        for i in range(n):
+            verb = plan["verbs"][i % len(plan["verbs"])]
+            ok = await s.step(["xfer", verb, "/dir", 5] if verb in ("STOR", "APPE") else ["xfer", "RETR", "/dir"])
+            codes = [c for c in s.outcomes[-1] if len(c) == 3 and c.isdigit()]
+            if not ok or not (codes == ["150", "451"] or (len(codes) == 1 and codes[0][0] in "45")):
+                viol.append({"key": "repeated-failure-not-contained", "msg": f"failure number {i + 1} of the session ({verb} onto a directory): "
+                                                                             f"{s.outcomes[-1]} (the first one gave {s.outcomes[4] if len(s.outcomes) > 4 else None})"})
+                break
+            if i % 16 == 15 and s.alive:
+                await s.step(["xfer", "STOR", f"/ok{i}.bin", 100])
+                if [c for c in s.outcomes[-1] if c.isdigit()] != ["150", "226"]:
+                    viol.append({"key": "transfer-fails-after-repeated-failures", "msg": f"after {i + 1} failed transfers a good upload gave {s.outcomes[-1]}"})
+                    break
+        if s.alive and not viol:
+            await s.step(["xfer", "STOR", "/final.bin", 1234])
+            await s.step(["xfer", "RETR", "/final.bin"])
+            good = [[c for c in o if c.isdigit()] for o in s.outcomes[-2:]]
+            if good != [["150", "226"], ["150", "226"]] or not s.downloads or s.downloads[-1][2] != payload_bytes(1234):
+                viol.append({"key": "transfer-fails-after-repeated-failures", "msg": f"after {n} failed transfers: {s.outcomes[-2:]}"})
+            await s.step(["quit"])
+        s.peer.cut("fin")
+        await net.quiesce(1.0)
+        for leak in w.leaks():
+            viol.append({"key": "leak-after-fault:repeat", "msg": leak})
+        await w.stop()
+        return {"violations": viol, "monitors": {"repeated_failures": n, "fault_fired": n, "reply_451": n, "probe": 1}, "nontrivial": True,
+                "sig": sig_of(["repeat", plan]), "site": "repeat", "codes": s.outcomes[-4:]}
+    finally:
+        w.cleanup()
+
+
 def run_burst(plan):
     rearm()
     async def main(net, hyg):
@@ -350,6 +409,17 @@ def run_burst(plan):
 def run_case(case):
     out = {"violations": [], "monitors": {}, "sigs": [], "stats": {}}
     base = dict(case["plan"])
+    if case["kind"] == "repeat":
+        rearm()
+
+        async def main_r(net, hyg):
+            return await execute_repeat(net, hyg, base)
+        res, info = W.run(main_r, seed=base.get("seed", 0), net_kwargs=dict(mss=1460, latency=0.001))
+        if res is None:
+            return W.failed(info)
+        for v in res["violations"]:
+            v["replay_case"] = case
+        return {"violations": res["violations"], "monitors": res["monitors"], "sigs": [res["sig"]], "sample": {"plan": base, "codes": res["codes"]}}
     if case["kind"] == "burst":
         pre, lines, op, idx, expect = BURSTS[base["burst"]]
         good = run_burst(dict(base, fault=False))
@@ -457,6 +527,10 @@ def gen_cases(tier, seed):
     # a server whose encoding cannot carry the operating system's message
     for name in ("mkd_rmd", "retr_pasv", "stor_pasv", "mlsd"):
         cases.append({"kind": "enum_k", "plan": {"script": name, "exc": "oddtext", "seed": seed, "server_kwargs": {"encoding": "latin-1"}}})
+    # the same failure 80 times in one session
+    for backend in ("memory", "pathio") if tier == "quick" else ("memory", "pathio", "async"):
+        for verbs in (["STOR"], ["STOR", "APPE", "RETR"]):
+            cases.append({"kind": "repeat", "plan": {"n": 80, "verbs": verbs, "backend": backend, "seed": seed}})
     # the real executor-based back end WITHOUT the spy around it, path_timeout configured: the k-th job it hands to its executor
     # takes longer than that, or fails inside the thread - what the back end's own decorators make of it is what the server gets
     for name in (("mlsd", "stor_pasv", "retr_pasv", "mkd_rmd") if tier == "quick" else
